@@ -29,6 +29,10 @@ type Tape struct {
 	Net      string           `json:"net,omitempty"` // "" | stale | dup | truncate | krberror
 	NetArg   int64            `json:"net_arg,omitempty"`
 	Addrs    bool             `json:"addresses,omitempty"` // client asks for addresses (noaddresses = false)
+	Canon    bool             `json:"canonicalize,omitempty"`
+	Fwd      bool             `json:"forwardable,omitempty"`
+	Prox     bool             `json:"proxiable,omitempty"`
+	Renew    string           `json:"renew_lifetime,omitempty"`
 	TCP      bool             `json:"tcp,omitempty"`
 	Salt     string           `json:"salt,omitempty"`
 	Iter     int              `json:"iter,omitempty"`
@@ -52,7 +56,7 @@ var perts = []pert{
 	{"other-usage", []int64{3, 8, 9, 2}},
 	{"enc-tag", []int64{25, 26, 3}},
 	{"msg-type", []int64{11, 13}},
-	{"enc-flip", nil}, {"enc-trunc", nil}, {"enc-extend", nil},
+	{"enc-flip", []int64{0, 1, -1, -8, -12, -13, -16, -17, -20, -21, -24, -25}}, {"enc-trunc", []int64{0, 1, 8, 12}}, {"enc-extend", nil},
 }
 
 type single struct {
@@ -122,12 +126,13 @@ func Gen(caseID, tier string) (json.RawMessage, error) {
 		tp := Tape{Engine: "c09", RunSeed: 0xc09<<40 | n, Cred: "keytab", Flow: "none", Etype: 18, Addrs: true}
 		switch rep {
 		case 1:
-			tp.Cred, tp.Flow = "password", "preauth"
+			tp.Cred, tp.Flow, tp.Canon = "password", "preauth", true
 		case 2:
-			tp.Cred, tp.Flow, tp.TCP = "keytab", "assumed", true
+			tp.Cred, tp.Flow, tp.TCP, tp.Fwd, tp.Renew = "keytab", "assumed", true, true, "1d"
 		case 3:
-			tp.Cred, tp.Flow, tp.Salt, tp.Addrs = "password", "none", "Custom.Salt", false
+			tp.Cred, tp.Flow, tp.Salt, tp.Addrs, tp.Prox, tp.Canon = "password", "none", "Custom.Salt", false, true, true
 		case 0:
+			tp.Canon, tp.Fwd = idx%2 == 1, idx%3 == 1
 		default:
 			return nil, fmt.Errorf("sweep index out of range")
 		}
@@ -165,6 +170,8 @@ func Gen(caseID, tier string) (json.RawMessage, error) {
 	r := core.NewRng(n).Derive("c09")
 	tp := Tape{Engine: "c09", RunSeed: n, Cred: r.Pick("keytab", "keytab", "password"), Etype: etypes[r.Intn(len(etypes))],
 		Flow: r.Pick("none", "preauth", "preauth", "assumed"), Exchange: exchanges[r.Intn(3)], Addrs: r.Chance(1, 2), TCP: r.Chance(1, 3)}
+	tp.Canon, tp.Fwd, tp.Prox = r.Chance(1, 3), r.Chance(1, 3), r.Chance(1, 4)
+	tp.Renew = r.Pick("", "", "1d")
 	if tp.Cred == "password" && (tp.Etype == 19 || tp.Etype == 20) && r.Chance(2, 3) {
 		tp.Etype = r.PickInt(17, 18, 23, 16) // RFC 8009 string-to-key costs 32768 PBKDF2 rounds on each side
 	}
